@@ -12,15 +12,27 @@ The full compiler-correctness statement, for the whole core language, is
 
     compile_correct : WellScoped e → run (compile e) σ = evalCore e ρ        (σ represents ρ)
 
-i.e. `compile_correct_F1` below without the hypothesis `inF1 e`. What is proved is
-`compile_correct_partial` (= the highest complete rung of the ladder, F1; of F2 the machine half
-`call_return_exact_F2` / `call_compiled_function_F2` is proved). Missing cases, in the order
-they would be added: record patterns through `Split` (small records) and `GetField` (open rows)
-— the `GetOffset` prologue of `compile_let_pattern` is covered —, float and string literal
-patterns, `Call`/`TailCall` with frames (F2),
-`Named::Recursive`
-closures (`NewClosure`/`CloseClosure`, F3), partial application and excess arguments (F4).
-Beyond the proved rung the claim rests on the exact-bytecode and run correspondences above.
+What is proved is `compile_correct_partial` (= `compile_correct_F2`, the highest rung reached):
+
+* F0/F1 completely (straight-line code; `&&`, `||`, `Match` incl. both record-pattern paths),
+  end to end on the whole machine for modules (`compile_correct_F1_run`);
+* F2 for calls (tail or not) of exact arity on *known* closures: variables bound to closures
+  that are `CloRel`-related to heap closures (`compile_correct_F2`), with `closure_correct_F2`
+  showing that the function `compile_lambda` builds for a closure is so related (so the theorem
+  composes through call chains), `exec_is_run` / `returns_is_run` giving the frame-level meaning
+  (`Call`, `TailCall`, `Return` on `Bytecode.run`);
+* of F3 the semantic half: recursive groups are related at every fuel (`rec_group_correct_F3`).
+
+Still missing, precisely: (i) the *code* of `Named::Recursive` (`NewClosure … CloseClosure`,
+also for a non-recursive `let f x = …`): these instructions change the heap, whereas `Exec`
+keeps one heap — the statement must become Kripke-style (start heap, end heap, `Agree`/`CloRel`
+monotone under heap extension, `stepInstr` monotone in the heap), which touches every case of
+the induction; (ii) closures as *values* (returned, passed, stored in data; partial application
+and excess arguments of F4 produce `pap`/closure results): results are then related, not equal,
+values, so `Agree`/`Done` need a value relation instead of equality and "which variables hold
+closures" stops being syntactic (`Φ`) and needs types; (iii) float/string literal patterns,
+`GetField` record patterns on open rows, extern calls (`error`). Beyond the proved rung the claim
+rests on the exact-bytecode and run correspondences above.
 -/
 import GluonModel.Core
 import GluonModel.Bytecode
@@ -83,17 +95,127 @@ def noBranchs : List Expr → Bool
   | e :: es => noBranch e && noBranchs es
 end
 
+/-- F2 relative to the function variables `Φ` (variables that hold closures, with their arity):
+    F1 plus calls `f a₁ … aₙ`, in tail position or not, of a function variable with exactly its
+    arity. Function variables occur only as heads of such calls and are never rebound. -/
+def inF2 (Φ : List (Sym × Nat)) (e : Expr) : Bool := inF Φ e
+
 /-- F1: constants (the string table included), identifiers (stack slots and upvalues), `Cast`,
     non-recursive `Let`, primitive binary operators, `Data` (variants, arrays, records with the
     record-map table), `&&`, `||`, `Match` over constructor / identifier / int, char, byte
     literal patterns (so also `if`), and `Match` with a single record-pattern alternative on a
-    closed row that the compiler turns into `GetOffset`s (record projection `e.f`, `let {…} = e`
-    on records with more than four fields, or binding no field). -/
-def inF1 (e : Expr) : Bool := inF e
+    closed row — through `GetOffset`s (projection, `let {…} = e` on large records) or through
+    `Split` (small records, tuples). F1 is F2 without function variables. -/
+def inF1 (e : Expr) : Bool := inF [] e
 
 /-- F0: the straight-line part of F1 (Const, Ident, Cast, Let, primitive binops, Data, record
-    projection by `GetOffset`). -/
-def inF0 (e : Expr) : Bool := inF e && noBranch e
+    projection). -/
+def inF0 (e : Expr) : Bool := inF [] e && noBranch e
+
+/-- **F2 (calls on known closures).** As F1 (below), for expressions that also call function
+    variables: every `(f, n) ∈ Φ` is bound in the environment to an `evalCore` closure that the
+    machine represents by a `CloRel`-related heap closure (a stack slot or upvalue holding
+    `cref id`, `Agree`). The code of `e`, run as a segment, ends with `stk ++ [v]` where
+    `evalCore … = ok v` — or, when compiled in tail position, leaves the frame by a `TailCall`
+    whose callee returns `v` to the frame's caller (`Done`); calls are whole-machine calls:
+    `Exec`/`Returns` derivations are runs of `Bytecode.run` with frames (`exec_is_run`,
+    `returns_is_run`). Arithmetic failures, also inside callees, are reproduced. `K` is the fuel
+    up to which the function variables are known to be related (`CloRel K`); evaluations with
+    fuel `≤ K + 1` are covered, so closures related at every `K` (`rec_group_correct_F3`) give the
+    statement for every fuel. -/
+theorem compile_correct_F2 (seIdx : Nat) (Φ : List (Sym × Nat)) (e : Expr) (hF : inF2 Φ e = true)
+    (tail : Bool) (b : Nat) (st : FState) (fn : Fn) (upv : List Val) (fv : List Sym) (h : Heap)
+    (K fuel : Nat) (hK : fuel ≤ K + 1) (ρ : Env) (stk : List Val)
+    (hseg : SegAt fn.instrs b (compileE seIdx e tail b st).1)
+    (htab : Tables (compileE seIdx e tail b st).2 fn fv)
+    (hlen : stk.length = st.stackSize) (hag : Agree K h Φ fv upv st.scopes ρ stk)
+    (hdum : lookup ρ dummySym = none) :
+    (∀ v, evalCore fuel ρ e = .ok v →
+      Done fn upv h tail b stk (b + (compileE seIdx e tail b st).1.length) stk v) ∧
+    (evalCore fuel ρ e = .error .arith → ExecErr fn upv h b stk .arith) :=
+  ((wrap_of_body (body_spec seIdx Φ e hF)) tail b st).2.2.2 K fuel hK fn upv fv h ρ stk hseg htab hlen
+    hag hdum
+
+/-- **F2: the function `compile_lambda` builds for a closure is that closure** (`CloRel`): for a
+    member `(nm, params, body)` of a group with `body` in F2, a heap closure holding the compiled
+    function and upvalues that represent the body's free variables returns, when entered with
+    `params.length` arguments, what `evalCore` assigns to the body — so it can in turn be a
+    function variable of its callers (`compile_correct_F2` composes). -/
+theorem closure_correct_F2 (seIdx : Nat) (Φ : List (Sym × Nat)) (cs : Closures) (idx : Nat)
+    (env : Env) (nm : Sym) (params : List Sym) (body : Expr)
+    (hcs : cs[idx]? = some (nm, params, body))
+    (hF : inF2 Φ body = true) (hp0 : params.length ≠ 0)
+    (hnd : params.contains dummySym = false) (hpf : ∀ a ∈ params, lookupScope Φ a = none)
+    (K : Nat) (h : Heap) (id : Nat) (gupv : List Val)
+    (hg : h.clos[id]? = some (mkFn params.length (compileE seIdx body true 0 (innerStart params)).1
+      (compileE seIdx body true 0 (innerStart params)).2, gupv))
+    (hdum : lookup (recEnv cs env) dummySym = none)
+    (hup : ∀ x w, lookup (recEnv cs env) x = some w →
+      ∀ k, indexOfSym (compileE seIdx body true 0 (innerStart params)).2.freeVars x = some k →
+        ∃ v', gupv[k]? = some v' ∧ RV K h Φ x w v') :
+    CloRel (K + 1) h params.length (.clos cs idx env) (.cref id) :=
+  closure_correct seIdx Φ cs idx env nm params body hcs hF hp0 hnd hpf K h id gupv hg hdum hup
+
+/-- **F3, the `evalCore` side of recursive groups.** Let every member `i` of a
+    `Named::Recursive` group `cs` over `env` have a heap closure `ids i` holding the function
+    `compile_lambda` builds for it, with upvalues that represent the free variables of its body —
+    the members of the group by each other's heap closures (what `NewClosure … CloseClosure` set
+    up), the others as `hup` says. If all bodies are in F2 relative to a `Φ` listing the members
+    with their arities, every member is `CloRel`-related to its heap closure at every fuel, by
+    induction on the fuel: a (mutually) recursive call at fuel `K + 1` needs the relation at `K`
+    only. So recursive and mutually recursive functions can be function variables of
+    `compile_correct_F2`, at every fuel. -/
+theorem rec_group_correct_F3 (seIdx : Nat) (Φ : List (Sym × Nat)) (cs : Closures) (env : Env)
+    (h : Heap) (ids : Nat → Nat) (ups : Nat → List Val)
+    (hmem : ∀ i nm params body, cs[i]? = some (nm, params, body) →
+      inF2 Φ body = true ∧ params.length ≠ 0 ∧ params.contains dummySym = false ∧
+      (∀ a ∈ params, lookupScope Φ a = none) ∧
+      h.clos[ids i]? = some (mkFn params.length (compileE seIdx body true 0 (innerStart params)).1
+        (compileE seIdx body true 0 (innerStart params)).2, ups i))
+    (hdum : lookup (recEnv cs env) dummySym = none)
+    (hup : ∀ (K : Nat), (∀ i nm params body, cs[i]? = some (nm, params, body) →
+        CloRel K h params.length (.clos cs i env) (.cref (ids i))) →
+      ∀ i nm params body, cs[i]? = some (nm, params, body) →
+      ∀ x w, lookup (recEnv cs env) x = some w →
+      ∀ k, indexOfSym (compileE seIdx body true 0 (innerStart params)).2.freeVars x = some k →
+        ∃ v', (ups i)[k]? = some v' ∧ RV K h Φ x w v') :
+    ∀ (K : Nat) i nm params body, cs[i]? = some (nm, params, body) →
+      CloRel K h params.length (.clos cs i env) (.cref (ids i)) :=
+  rec_group_correct seIdx Φ cs env h ids ups hmem hdum hup
+
+/-- `Exec` derivations (turns of the interpreter loop and whole calls) are runs of the whole
+    machine `Bytecode.run`, in any frame of a closure of that function. -/
+theorem exec_is_run {fn : Fn} {upv : List Val} {h : Heap} {pc : Nat} {stk : List Val} {pc' : Nat}
+    {stk' : List Val} (a : Exec fn upv h pc stk pc' stk')
+    (below : List Val) (fr : Frame) (rest : List Frame) (ho : fr.offset = below.length)
+    (hc : h.clos[fr.clos]? = some (fn, upv)) :
+    ∃ n, ∀ m,
+      run (n + m) ⟨below ++ stk, ({ fr with pc := pc } : Frame) :: rest, h⟩ =
+      run m ⟨below ++ stk', ({ fr with pc := pc' } : Frame) :: rest, h⟩ :=
+  run_of_exec a below fr rest ho hc
+
+/-- `Returns` derivations are runs of the whole machine from the callee's fresh frame (`Call` /
+    `TailCall` of exact arity have just pushed it) to the moment its caller has the result in
+    place of function and arguments (`Return`, thread.rs :2527; `TailCall`, :2188). -/
+theorem returns_is_run {g : Fn} {gupv : List Val} {h : Heap} {args : List Val} {v : Val}
+    (a : Returns g gupv h args v) (below : List Val) (id : Nat) (frames : List Frame)
+    (hg : h.clos[id]? = some (g, gupv)) :
+    ∃ n, ∀ m,
+      run (n + m) ⟨below ++ [Val.cref id] ++ args,
+          (⟨(below ++ [Val.cref id]).length, false, id, 0⟩ : Frame) :: frames, h⟩ =
+      run m ⟨below ++ [v], frames, h⟩ :=
+  run_of_returns a below id frames hg
+
+/-- without function variables the fuel index of `Agree` is immaterial -/
+theorem agree_nil {K K' : Nat} {h : Heap} {fv : List Sym} {upv : List Val}
+    {sc : List (List (Sym × Nat))} {ρ : Env} {stk : List Val}
+    (a : Agree K h [] fv upv sc ρ stk) : Agree K' h [] fv upv sc ρ stk := by
+  intro x v hx
+  rcases a x v hx with ⟨i, v', hi, hv, hr⟩ | ⟨hn, hr⟩
+  · exact Or.inl ⟨i, v', hi, hv, by simpa [RV, lookupScope] using hr⟩
+  · refine Or.inr ⟨hn, fun k hk => ?_⟩
+    obtain ⟨v', hu, hr'⟩ := hr k hk
+    exact ⟨v', hu, by simpa [RV, lookupScope] using hr'⟩
 
 /-- **F1.** The code the model compiler emits for `e` at index `b` (`compile`, i.e. with the
     final `Slide`), placed anywhere in a function's instruction list (`SegAt`: the code is
@@ -101,36 +223,38 @@ def inF0 (e : Expr) : Bool := inF e && noBranch e
     stack `stk` in which every variable of the environment sits in the slot the compiler
     recorded for it — or, if it is not a stack variable of this function, in the upvalue of
     that name (`Agree`) — in a function whose string / record tables and upvalue list extend
-    the compiler's (`Tables`), runs to the end of the segment and leaves exactly `stk ++ [v]` when the
-    semantics gives `v`; when the semantics gives the arithmetic error (overflow, division by
-    zero) the machine stops with that error. Holds for every `tail` flag, start index, compiler
-    state and heap; nothing below the top of `stk` changes. (`evalCore` answers `wrong …` for
-    ill-scoped / ill-typed programs and for a `Match` none of whose alternatives applies — the
-    translator adds a default alternative — so those are outside the statement.) -/
+    the compiler's (`Tables`), runs to the end of the segment and leaves exactly `stk ++ [v]` when
+    the semantics gives `v`; when the semantics gives the arithmetic error (overflow, division
+    by zero) the machine stops with that error. Holds for every `tail` flag, start index,
+    compiler state and heap; nothing below the top of `stk` changes. (`evalCore` answers
+    `wrong …` for ill-scoped / ill-typed programs and for a `Match` none of whose alternatives
+    applies — the translator adds a default alternative — so those are outside the statement.
+    F1 code contains no call, so the second disjunct of `Done` never arises; it is kept because
+    this theorem is `compile_correct_F2` at `Φ = []`.) -/
 theorem compile_correct_F1 (seIdx : Nat) (e : Expr) (hF : inF1 e = true)
     (tail : Bool) (b : Nat) (st : FState) (fn : Fn) (upv : List Val) (fv : List Sym) (h : Heap)
     (fuel : Nat) (ρ : Env) (stk : List Val)
     (hseg : SegAt fn.instrs b (compileE seIdx e tail b st).1)
     (htab : Tables (compileE seIdx e tail b st).2 fn fv)
-    (hlen : stk.length = st.stackSize) (hag : Agree fv upv st.scopes ρ stk)
+    (hlen : stk.length = st.stackSize) (hag : Agree 0 h [] fv upv st.scopes ρ stk)
     (hdum : lookup ρ dummySym = none) :
     (∀ v, evalCore fuel ρ e = .ok v →
-      Exec fn upv h b stk (b + (compileE seIdx e tail b st).1.length) (stk ++ [v])) ∧
+      Done fn upv h tail b stk (b + (compileE seIdx e tail b st).1.length) stk v) ∧
     (evalCore fuel ρ e = .error .arith → ExecErr fn upv h b stk .arith) :=
-  ((wrap_of_body (body_spec seIdx e hF)) tail b st).2.2.2 fn upv fv h fuel ρ stk hseg htab hlen hag
-    hdum
+  compile_correct_F2 seIdx [] e hF tail b st fn upv fv h fuel fuel (Nat.le_succ _) ρ stk hseg htab
+    hlen (agree_nil hag) hdum
 
-/-- **F0** (straight-line code: Const, Ident, Let, primitive binop, Data, record projection by
-    `GetOffset`, Slide): the first rung, a special case of F1. -/
+/-- **F0** (straight-line code: Const, Ident, Let, primitive binop, Data, record projection,
+    Slide): the first rung, a special case of F1. -/
 theorem compile_correct_F0 (seIdx : Nat) (e : Expr) (hF : inF0 e = true)
     (tail : Bool) (b : Nat) (st : FState) (fn : Fn) (upv : List Val) (fv : List Sym) (h : Heap)
     (fuel : Nat) (ρ : Env) (stk : List Val)
     (hseg : SegAt fn.instrs b (compileE seIdx e tail b st).1)
     (htab : Tables (compileE seIdx e tail b st).2 fn fv)
-    (hlen : stk.length = st.stackSize) (hag : Agree fv upv st.scopes ρ stk)
+    (hlen : stk.length = st.stackSize) (hag : Agree 0 h [] fv upv st.scopes ρ stk)
     (hdum : lookup ρ dummySym = none) :
     (∀ v, evalCore fuel ρ e = .ok v →
-      Exec fn upv h b stk (b + (compileE seIdx e tail b st).1.length) (stk ++ [v])) ∧
+      Done fn upv h tail b stk (b + (compileE seIdx e tail b st).1.length) stk v) ∧
     (evalCore fuel ρ e = .error .arith → ExecErr fn upv h b stk .arith) :=
   compile_correct_F1 seIdx e (by simp only [inF0, Bool.and_eq_true] at hF; exact hF.1)
     tail b st fn upv fv h fuel ρ stk hseg htab hlen hag hdum
@@ -139,26 +263,25 @@ theorem compile_correct_F0 (seIdx : Nat) (e : Expr) (hF : inF0 e = true)
     `stack_size` has grown by exactly one, the scopes are as before, and the function's tables
     (upvalue names, string constants, record maps) have only been extended, so indices handed
     out earlier stay valid. -/
-theorem compile_stack_discipline_F1 (seIdx : Nat) (e : Expr) (hF : inF1 e = true)
-    (tail : Bool) (b : Nat) (st : FState) :
+theorem compile_stack_discipline_F2 (seIdx : Nat) (Φ : List (Sym × Nat)) (e : Expr)
+    (hF : inF2 Φ e = true) (tail : Bool) (b : Nat) (st : FState) :
     (compileE seIdx e tail b st).2.scopes = st.scopes ∧
     (compileE seIdx e tail b st).2.stackSize = st.stackSize + 1 ∧
     Ext st (compileE seIdx e tail b st).2 :=
-  ⟨((wrap_of_body (body_spec seIdx e hF)) tail b st).1,
-   ((wrap_of_body (body_spec seIdx e hF)) tail b st).2.1,
-   ((wrap_of_body (body_spec seIdx e hF)) tail b st).2.2.1⟩
+  ⟨((wrap_of_body (body_spec seIdx Φ e hF)) tail b st).1,
+   ((wrap_of_body (body_spec seIdx Φ e hF)) tail b st).2.1,
+   ((wrap_of_body (body_spec seIdx Φ e hF)) tail b st).2.2.1⟩
 
 /-- Whole modules: the function `compile_expr` builds for an F1 expression whose only free
-    variables are globals, run from its first instruction on an empty frame with the globals'
-    values as upvalues (vm.rs:66 `new_bytecode`), reaches its `Return` with the value of the
-    semantics as the only thing on the stack, or fails with the arithmetic error. -/
+    variables are globals, entered with no arguments and the globals' values as upvalues
+    (vm.rs:66 `new_bytecode`), returns the value of the semantics to its caller, or fails with
+    the arithmetic error. -/
 theorem compile_correct_F1_module (seIdx : Nat) (e : Expr) (hF : inF1 e = true)
     (upv : List Val) (h : Heap) (fuel : Nat) (ρ : Env) (hdum : lookup ρ dummySym = none)
     (hglob : ∀ x v, lookup ρ x = some v →
-      ∃ k, indexOfSym (compileModule seIdx e).1 x = some k ∧ upv[k]? = some v) :
+      ∀ k, indexOfSym (compileModule seIdx e).1 x = some k → upv[k]? = some v) :
     let fn := (compileModule seIdx e).2.1
-    (∀ v, evalCore fuel ρ e = .ok v →
-      ∃ pc, Exec fn upv h 0 [] pc [v] ∧ fn.instrs[pc]? = some .ret) ∧
+    (∀ v, evalCore fuel ρ e = .ok v → Returns fn upv h [] v) ∧
     (evalCore fuel ρ e = .error .arith → ExecErr fn upv h 0 [] .arith) := by
   intro fn
   have hseg : SegAt fn.instrs 0 (compileE seIdx e true 0 FState.empty).1 := by
@@ -167,15 +290,17 @@ theorem compile_correct_F1_module (seIdx : Nat) (e : Expr) (hF : inF1 e = true)
     rw [Nat.zero_add, List.getElem?_append_left hk]
   have htab : Tables (compileE seIdx e true 0 FState.empty).2 fn (compileModule seIdx e).1 :=
     ⟨List.prefix_refl _, List.prefix_refl _, List.prefix_refl _⟩
-  have hag : Agree (compileModule seIdx e).1 upv FState.empty.scopes ρ [] := by
+  have hag : Agree 0 h [] (compileModule seIdx e).1 upv FState.empty.scopes ρ [] := by
     intro x v hx
-    exact Or.inr ⟨rfl, hglob x v hx⟩
+    exact Or.inr ⟨rfl, fun k hk => ⟨v, hglob x v hx k hk, rfl⟩⟩
   obtain ⟨hok, herr⟩ := compile_correct_F1 seIdx e hF true 0 FState.empty fn upv
     (compileModule seIdx e).1 h fuel ρ [] hseg htab rfl hag hdum
-  refine ⟨fun v hv => ⟨(compileE seIdx e true 0 FState.empty).1.length, ?_, ?_⟩, herr⟩
-  · simpa using hok v hv
-  · show ((compileE seIdx e true 0 FState.empty).1 ++ [Instr.ret])[_]? = _
+  refine ⟨fun v hv => ?_, herr⟩
+  rcases hok v hv with ex | ⟨_, pc', s, id', args', g', gupv', hex, hi, hg', hn', hret⟩
+  · refine Returns.ret (s := []) (by simpa using ex) ?_
+    show ((compileE seIdx e true 0 FState.empty).1 ++ [Instr.ret])[_]? = _
     simp
+  · exact Returns.tail hex hi hg' hn' hret
 
 /-- **End to end, on the whole machine** (value stack, frames, heap; `Bytecode.run` is the
     model the `runbc` correspondence validates against the real VM): for an F1 module whose free
@@ -186,7 +311,7 @@ theorem compile_correct_F1_module (seIdx : Nat) (e : Expr) (hF : inF1 e = true)
 theorem compile_correct_F1_run (seIdx : Nat) (e : Expr) (hF : inF1 e = true)
     (globals : List Val) (fuel : Nat) (ρ : Env) (hdum : lookup ρ dummySym = none)
     (hglob : ∀ x v, lookup ρ x = some v →
-      ∃ k, indexOfSym (compileModule seIdx e).1 x = some k ∧ globals[k]? = some v) :
+      ∀ k, indexOfSym (compileModule seIdx e).1 x = some k → globals[k]? = some v) :
     let fn := (compileModule seIdx e).2.1
     (∀ v, evalCore fuel ρ e = .ok v →
       ∃ n, ∀ m, runModule (n + m) fn globals = .ok (v, { clos := [(fn, globals)], data := [] })) ∧
@@ -195,66 +320,7 @@ theorem compile_correct_F1_run (seIdx : Nat) (e : Expr) (hF : inF1 e = true)
   intro fn
   obtain ⟨hok, herr⟩ := compile_correct_F1_module seIdx e hF globals
     { clos := [(fn, globals)], data := [] } fuel ρ hdum hglob
-  refine ⟨fun v hv => ?_, fun he => runModule_of_execErr (herr he)⟩
-  obtain ⟨pc, hex, hret⟩ := hok v hv
-  exact runModule_of_exec hex hret
-
-/-! ### Rung F2 (partial): calls of exact arity, with frames -/
-
-/-- **F2, the machine half: `Call` / `Return` with frames, exact arity.** On the whole machine
-    (`Bytecode.step`: thread.rs `Call` :2183, `do_call` :2752, `call_function_with_upvars`
-    `Ordering::Equal` :2711, `Return` :2527): if the callee's code, started at 0 on its
-    arguments in its own frame, runs to a `Return` with `args ++ [v]`, then a `Call n` in the
-    caller replaces function and arguments by `v`; everything below (the caller's locals, the
-    rest of the value stack, the other frames) and the heap are untouched, and the caller
-    resumes at the next instruction. -/
-theorem call_return_exact_F2 {fn g : Fn} {upv gupv : List Val} {h : Heap} {pc pcR id n : Nat}
-    {below stk args : List Val} {v : Val} {fr : Frame} {rest : List Frame}
-    (ho : fr.offset = below.length) (hpc : fr.pc = pc)
-    (hc : h.clos[fr.clos]? = some (fn, upv)) (hi : fn.instrs[pc]? = some (.call n))
-    (hg : h.clos[id]? = some (g, gupv)) (hn : g.args = n) (hargs : args.length = n)
-    (hbody : Exec g gupv h 0 args pcR (args ++ [v])) (hret : g.instrs[pcR]? = some .ret) :
-    ∃ k, ∀ m,
-      run (k + m) { stack := below ++ (stk ++ [.cref id] ++ args), frames := fr :: rest, heap := h } =
-      run m { stack := below ++ (stk ++ [v]), frames := { fr with pc := pc + 1 } :: rest, heap := h } :=
-  call_return_exact ho hpc hc hi hg hn hargs hbody hret
-
-/-- **F2 for compiled functions with an F1 body.** Take the function `compile_lambda` builds
-    for `\params -> body` (`body` in F1), held by a closure `id` whose upvalues carry the closure's
-    environment `ρc`. A `Call` with exactly `params.length` arguments, anywhere in any caller,
-    yields the value `evalCore` assigns to `body` under `params ↦ args` — on the whole machine,
-    with the caller's frame, the stack below and the heap untouched. (What is *not* proved here is
-    the other half of F2–F3: that the code the compiler emits for a `Call` expression and for
-    `Named::Recursive` puts exactly such a closure and such arguments on the stack; that needs
-    a relation between `evalCore` closures and heap closures.) -/
-theorem call_compiled_function_F2 (seIdx : Nat) (params : List Sym) (body : Expr)
-    (hF : inF1 body = true) (hnd : params.contains dummySym = false)
-    {fn : Fn} {upv gupv : List Val} {h : Heap} {pc id : Nat}
-    {below stk args : List Val} {fr : Frame} {rest : List Frame}
-    (fuel : Nat) (ρc : Env) (v : Val)
-    (ho : fr.offset = below.length) (hpc : fr.pc = pc)
-    (hc : h.clos[fr.clos]? = some (fn, upv)) (hi : fn.instrs[pc]? = some (.call params.length))
-    (hg : h.clos[id]? = some
-      (mkFn params.length (compileE seIdx body true 0 (innerStart params)).1
-        (compileE seIdx body true 0 (innerStart params)).2, gupv))
-    (hargs : params.length = args.length) (hdum : lookup ρc dummySym = none)
-    (hup : ∀ x w, lookup ρc x = some w →
-      ∃ k, indexOfSym (compileE seIdx body true 0 (innerStart params)).2.freeVars x = some k ∧
-        gupv[k]? = some w)
-    (hev : evalCore fuel (bindAll params args ρc) body = .ok v) :
-    ∃ k, ∀ m,
-      run (k + m) { stack := below ++ (stk ++ [.cref id] ++ args), frames := fr :: rest, heap := h } =
-      run m { stack := below ++ (stk ++ [v]), frames := { fr with pc := pc + 1 } :: rest, heap := h } := by
-  obtain ⟨pcR, hex, hret⟩ := lambda_body_exec seIdx params body hF hnd gupv h fuel ρc args v hargs
-    hdum hup hev
-  exact call_return_exact ho hpc hc hi hg rfl hargs.symm hex hret
-
-/-- `Exec` (used in the statements above) is a statement about `runLocal`, the iteration of the
-    interpreter loop: it computes exactly that transition. -/
-theorem exec_is_runLocal (fn : Fn) (upv : List Val) (h : Heap) (pc : Nat) (s : List Val)
-    (pc' : Nat) (s' : List Val) (a : Exec fn upv h pc s pc' s') :
-    ∃ n, ∀ m, runLocal fn upv (n + m) pc s h = runLocal fn upv m pc' s' h :=
-  a.runLocal
+  exact ⟨fun v hv => runModule_of_returns (hok v hv), fun he => runModule_of_execErr (herr he)⟩
 
 /-! Non-vacuity -/
 def exX : Sym := ⟨"x", 1⟩
@@ -314,6 +380,8 @@ def exCall : Expr :=
     (.call (.ident exF) [.const (.int 1), .const (.int 2)])
 example : inF1 exCall = false := by rfl
 example : inF1 (.call (.ident ⟨"#Int+", 3⟩) [.ident exX, .ident exY]) = true := by rfl
+/-- with `f` known to be a closure of arity 2 the call is inside F2 -/
+example : inF2 [(exF, 2)] (.call (.ident exF) [.const (.int 1), .const (.int 2)]) = true := by rfl
 example : evalCore 20 [] exCall = .ok (.int 3) := by rfl
 example : (compileModule 5 exCall).2.1.instrs =
     [.newClosure 0 0, .push 0, .closeClosure 0, .push 0, .pushInt 1, .pushInt 2, .tailCall 2,
@@ -335,17 +403,47 @@ example : (compileModule 5 exProj).2.1.instrs =
     [.pushInt 1, .pushInt 2, .pushInt 3, .pushInt 4, .pushInt 5, .constructRecord 0 5,
      .push 0, .getOffset 3, .push 1, .slide 2, .jump 11, .ret] := by rfl
 
-/-- What is proved of the full statement `compile_correct` (see the header): the highest rung. -/
-theorem compile_correct_partial (seIdx : Nat) (e : Expr) (hF : inF1 e = true)
+/-- `match (1, 2) with (a, b) -> b`: a tuple pattern through `Split` -/
+def exSplit : Expr :=
+  .match_ (.data (.record [⟨"_0", 1⟩, ⟨"_1", 2⟩]) [.const (.int 1), .const (.int 2)])
+    [(.record 2 false [⟨"_0", some 0, ⟨"a", 8⟩⟩, ⟨"_1", some 1, ⟨"b", 9⟩⟩]
+        [some ⟨"a", 8⟩, some ⟨"b", 9⟩], .ident ⟨"b", 9⟩)]
+example : inF1 exSplit = true := by rfl
+example : evalCore 20 [] exSplit = .ok (.int 2) := by rfl
+example : (compileModule 5 exSplit).2.1.instrs =
+    [.pushInt 1, .pushInt 2, .constructRecord 0 2, .split, .push 1, .slide 2, .jump 7, .ret] := by rfl
+
+/-- the hypotheses of `closure_correct_F2` are satisfiable: the heap closure holding the function
+    compiled for `\x y -> x + y` (no upvalues) is related, at every fuel, to the `evalCore` closure -/
+example (K : Nat) :
+    CloRel (K + 1)
+      { clos := [(mkFn 2 (compileE 5 (.call (.ident ⟨"#Int+", 3⟩) [.ident exX, .ident exY]) true 0
+                    (innerStart [exX, exY])).1
+                  (compileE 5 (.call (.ident ⟨"#Int+", 3⟩) [.ident exX, .ident exY]) true 0
+                    (innerStart [exX, exY])).2, [])], data := [] }
+      2 (.clos [(exF, [exX, exY], .call (.ident ⟨"#Int+", 3⟩) [.ident exX, .ident exY])] 0 [])
+      (.cref 0) := by
+  refine closure_correct_F2 5 [] _ 0 [] exF [exX, exY] _ rfl rfl (by decide) rfl
+    (by intro a ha; rfl) K _ 0 [] rfl rfl ?_
+  intro x w _ k hk
+  have : (compileE 5 (.call (.ident ⟨"#Int+", 3⟩) [.ident exX, .ident exY]) true 0
+      (innerStart [exX, exY])).2.freeVars = [] := by rfl
+  rw [this] at hk
+  simp [indexOfSym] at hk
+
+/-- What is proved of the full statement `compile_correct` (see the header): the highest rung
+    reached, F2 on known closures. -/
+theorem compile_correct_partial (seIdx : Nat) (Φ : List (Sym × Nat)) (e : Expr)
+    (hF : inF2 Φ e = true)
     (tail : Bool) (b : Nat) (st : FState) (fn : Fn) (upv : List Val) (fv : List Sym) (h : Heap)
-    (fuel : Nat) (ρ : Env) (stk : List Val)
+    (K fuel : Nat) (hK : fuel ≤ K + 1) (ρ : Env) (stk : List Val)
     (hseg : SegAt fn.instrs b (compileE seIdx e tail b st).1)
     (htab : Tables (compileE seIdx e tail b st).2 fn fv)
-    (hlen : stk.length = st.stackSize) (hag : Agree fv upv st.scopes ρ stk)
+    (hlen : stk.length = st.stackSize) (hag : Agree K h Φ fv upv st.scopes ρ stk)
     (hdum : lookup ρ dummySym = none) :
     (∀ v, evalCore fuel ρ e = .ok v →
-      Exec fn upv h b stk (b + (compileE seIdx e tail b st).1.length) (stk ++ [v])) ∧
+      Done fn upv h tail b stk (b + (compileE seIdx e tail b st).1.length) stk v) ∧
     (evalCore fuel ρ e = .error .arith → ExecErr fn upv h b stk .arith) :=
-  compile_correct_F1 seIdx e hF tail b st fn upv fv h fuel ρ stk hseg htab hlen hag hdum
+  compile_correct_F2 seIdx Φ e hF tail b st fn upv fv h K fuel hK ρ stk hseg htab hlen hag hdum
 
 end GluonModel.Props.C01b
